@@ -2,7 +2,8 @@ import PV.Model.Core
 /-!
 Correctness of the model code generator `PV.Core.comp` on the IC10 machine: forward simulation, indexed by the fuel of the
 reference semantics.  `ok e` ⇒ the machine reaches the line where the statement's exit `e` lands (the line after its code;
-the end label of the enclosing loop for `break`; its start label for `continue`) with the same registers and the same
+the end label of the enclosing loop for `break`; its start label for `continue`; the end label of the procedure for `return`)
+with the same registers — except `ra`, which calls overwrite and the program never reads — the same stack memory and the same
 effect trace; `timeout n` ⇒ after some `k ≥ n` machine steps the machine is in a state with the same trace (so the source
 trace is a prefix of the chip's behaviour, and — the machine being deterministic — vice versa).
 -/
@@ -39,8 +40,8 @@ theorem CodeAt.tail {P : List (Instr Reg V)} {base : Nat} {x : Instr Reg V} {d :
   have : CodeAt P base ([x] ++ d) := by simpa using h
   simpa using this.right
 
-theorem comp_length (lit : Nat → V) (s : Stmt V) (base cl bl : Nat) : (comp lit s base cl bl).length = size s := by
-  induction s generalizing base cl bl with
+theorem comp_length (lit : Nat → V) (entry : Nat → Nat) (s : Stmt V) (base cl bl rl : Nat) : (comp lit entry s base cl bl rl).length = size s := by
+  induction s generalizing base cl bl rl with
   | seq p q ihp ihq => simp [comp, size, ihp, ihq]
   | ite c neg args p q ihp ihq => simp [comp, size, ihp, ihq, nopI] <;> omega
   | ifThen c neg args p ihp => simp [comp, size, ihp, nopI]
@@ -48,9 +49,20 @@ theorem comp_length (lit : Nat → V) (s : Stmt V) (base cl bl : Nat) : (comp li
   | loop body ih => simp [comp, size, ih, nopI] <;> omega
   | _ => simp [comp, size]
 
-/-- the machine state that corresponds to a source state at line `pc` -/
-def mk (σ : SSt V) (mem : Nat → V) (pc : Nat) : St Reg V :=
-  { regs := σ.regs, mem := mem, pc := pc, trace := σ.trace, halted := false }
+/-- the machine state `st` is the source state `σ` at line `pc`, except possibly for `ra` (which a `jal` overwrites and a
+    well-formed program never reads) -/
+structure At (st : St Reg V) (σ : SSt V) (pc : Nat) : Prop where
+  regs : ∀ r, r ≠ (Special.ra : Reg) → st.regs r = σ.regs r
+  mem : st.mem = σ.mem
+  pc : st.pc = pc
+  trace : st.trace = σ.trace
+  halted : st.halted = false
+
+/-- the machine state that corresponds exactly to a source state at line `pc` -/
+def mk (σ : SSt V) (pc : Nat) : St Reg V :=
+  { regs := σ.regs, mem := σ.mem, pc := pc, trace := σ.trace, halted := false }
+
+theorem at_mk (σ : SSt V) (pc : Nat) : At (mk σ pc) σ pc := ⟨fun _ _ => rfl, rfl, rfl, rfl, rfl⟩
 
 theorem run_add (sem : Sem V) (env : Env V) (P : List (Instr Reg V)) (a b : Nat) (s : St Reg V) :
     run sem env P (a + b) s = run sem env P b (run sem env P a s) := by
@@ -60,38 +72,25 @@ theorem run_add (sem : Sem V) (env : Env V) (P : List (Instr Reg V)) (a b : Nat)
 
 theorem run_one (sem : Sem V) (env : Env V) (P : List (Instr Reg V)) (s : St Reg V) : run sem env P 1 s = step sem env P s := rfl
 
-/-! ### single steps -/
-theorem eval_num (f : Reg → V) (v : V) : (Opnd.num v : Opnd Reg V).eval f = v := rfl
+/-! ### operands -/
 
-section steps
-variable (sem : Sem V) (env : Env V) (P : List (Instr Reg V)) (σ : SSt V) (mem : Nat → V) (pc : Nat)
+theorem eval_ok (f g : Reg → V) (h : ∀ r, r ≠ (Special.ra : Reg) → f r = g r) (o : Opnd Reg V) (ho : opndOk o) : o.eval f = o.eval g := by
+  cases o with
+  | reg r => exact h r ho
+  | num v => rfl
 
-theorem step_alu (x : Reg) (op : String) (args : List (Opnd Reg V)) (h : P[pc]? = some ⟨.alu op, some x, args⟩) :
-    step sem env P (mk σ mem pc) = mk { σ with regs := upd σ.regs x (sem.alu op (evalArgs σ.regs args)) } mem (pc + 1) := by
-  simp [step, mk, h, IC10.exec, applyOut, writeBack, updOpt, evalArgs]
-
-theorem step_load (x : Reg) (q : String) (args : List (Opnd Reg V)) (h : P[pc]? = some ⟨.load q, some x, args⟩) :
-    step sem env P (mk σ mem pc) = mk { σ with regs := upd σ.regs x (env σ.trace q (evalArgs σ.regs args)) } mem (pc + 1) := by
-  simp [step, mk, h, IC10.exec, applyOut, writeBack, updOpt, evalArgs]
-
-theorem step_store (q : String) (args : List (Opnd Reg V)) (h : P[pc]? = some ⟨.store q, none, args⟩) :
-    step sem env P (mk σ mem pc) = mk { σ with trace := ⟨q, evalArgs σ.regs args⟩ :: σ.trace } mem (pc + 1) := by
-  simp [step, mk, h, IC10.exec, applyOut, writeBack, updOpt, evalArgs]
-
-theorem step_yield (h : P[pc]? = some ⟨.yield, none, []⟩) :
-    step sem env P (mk σ mem pc) = mk { σ with trace := ⟨"yield", []⟩ :: σ.trace } mem (pc + 1) := by
-  simp [step, mk, h, IC10.exec, applyOut, writeBack, updOpt]
-
-theorem step_sleep (a : Opnd Reg V) (h : P[pc]? = some ⟨.sleep, none, [a]⟩) :
-    step sem env P (mk σ mem pc) = mk { σ with trace := ⟨"sleep", [a.eval σ.regs]⟩ :: σ.trace } mem (pc + 1) := by
-  simp [step, mk, h, IC10.exec, applyOut, writeBack, updOpt]
-
-theorem step_nop (h : P[pc]? = some nopI) : step sem env P (mk σ mem pc) = mk σ mem (pc + 1) := by
-  simp [step, mk, h, nopI, IC10.exec, applyOut, writeBack, updOpt]
-
-theorem step_jmp (lit : Nat → V) (n : Nat) (hl : sem.toAddr (lit n) = some n) (h : P[pc]? = some ⟨.jmp, none, [.num (lit n)]⟩) :
-    step sem env P (mk σ mem pc) = mk σ mem n := by
-  simp [step, mk, h, IC10.exec, target, eval_num, hl, applyOut, writeBack, updOpt]
+theorem evalArgs_ok (f g : Reg → V) (h : ∀ r, r ≠ (Special.ra : Reg) → f r = g r) :
+    ∀ (args : List (Opnd Reg V)), (∀ o ∈ args, opndOk o) → evalArgs f args = evalArgs g args := by
+  intro args
+  induction args with
+  | nil => intro _; rfl
+  | cons o rest ih =>
+    intro ho
+    simp only [evalArgs, List.map_cons]
+    rw [eval_ok f g h o (ho o (by simp))]
+    have := ih (fun x hx => ho x (by simp [hx]))
+    simp only [evalArgs] at this
+    rw [this]
 
 theorem dropLast_snoc' {α : Type} (l : List α) (a : α) : (l ++ [a]).dropLast = l := by simp
 theorem getLastD_snoc' {α : Type} (l : List α) (a d : α) : (l ++ [a]).getLastD d = a := by
@@ -99,152 +98,452 @@ theorem getLastD_snoc' {α : Type} (l : List α) (a d : α) : (l ++ [a]).getLast
   | nil => rfl
   | cons x xs ih => cases xs <;> simp_all [List.getLastD]
 
-theorem step_br (lit : Nat → V) (c : String) (args : List (Opnd Reg V)) (n : Nat) (hl : sem.toAddr (lit n) = some n)
-    (h : P[pc]? = some ⟨.br c, none, args ++ [.num (lit n)]⟩) :
-    step sem env P (mk σ mem pc) =
-      if sem.cond c (evalArgs σ.regs args) then mk σ mem n else mk σ mem (pc + 1) := by
-  have hv : (args ++ [Opnd.num (lit n)]).map (Opnd.eval σ.regs) = evalArgs σ.regs args ++ [lit n] := by
-    simp [evalArgs, Opnd.eval]
+/-! ### single steps, relationally -/
+
+section steps
+variable (sem : Sem V) (env : Env V) (P : List (Instr Reg V)) (st : St Reg V) (σ : SSt V) (pc : Nat)
+
+theorem ra_ne_sp : (Special.sp : Reg) ≠ Special.ra := by decide
+
+theorem step_alu (h : At st σ pc) (x : Reg) (op : String) (args : List (Opnd Reg V)) (hx : x ≠ (Special.ra : Reg)) (ha : ∀ o ∈ args, opndOk o)
+    (hi : P[pc]? = some ⟨.alu op, some x, args⟩) :
+    At (step sem env P st) { σ with regs := upd σ.regs x (sem.alu op (evalArgs σ.regs args)) } (pc + 1) ∧
+      (step sem env P st).regs Special.ra = st.regs Special.ra := by
+  obtain ⟨hr, hm, hp, ht, hh⟩ := h
+  have hv : args.map (Opnd.eval st.regs) = evalArgs σ.regs args := evalArgs_ok st.regs σ.regs hr args ha
+  simp only [step, hh, hp, hi, Bool.false_eq_true, if_false, IC10.exec, hv, applyOut, writeBack, updOpt]
+  refine ⟨⟨?_, hm, by simp [hp], by simp [ht], rfl⟩, by simp [upd, Ne.symm hx]⟩
+  intro r hr'
+  simp only [upd]
+  split
+  · rfl
+  · exact hr r hr'
+
+theorem step_load (h : At st σ pc) (x : Reg) (q : String) (args : List (Opnd Reg V)) (hx : x ≠ (Special.ra : Reg)) (ha : ∀ o ∈ args, opndOk o)
+    (hi : P[pc]? = some ⟨.load q, some x, args⟩) :
+    At (step sem env P st) { σ with regs := upd σ.regs x (env σ.trace q (evalArgs σ.regs args)) } (pc + 1) ∧
+      (step sem env P st).regs Special.ra = st.regs Special.ra := by
+  obtain ⟨hr, hm, hp, ht, hh⟩ := h
+  have hv : args.map (Opnd.eval st.regs) = evalArgs σ.regs args := evalArgs_ok st.regs σ.regs hr args ha
+  simp only [step, hh, hp, hi, Bool.false_eq_true, if_false, IC10.exec, hv, ht, applyOut, writeBack, updOpt]
+  refine ⟨⟨?_, hm, by simp [hp], by simp [ht], rfl⟩, by simp [upd, Ne.symm hx]⟩
+  intro r hr'
+  simp only [upd]
+  split
+  · rfl
+  · exact hr r hr'
+
+theorem step_getm (h : At st σ pc) (x : Reg) (a : Opnd Reg V) (n : Nat) (hx : x ≠ (Special.ra : Reg)) (hao : opndOk a)
+    (ha : sem.toAddr (a.eval σ.regs) = some n) (hn : n < stackSize) (hi : P[pc]? = some ⟨.getdb, some x, [a]⟩) :
+    At (step sem env P st) { σ with regs := upd σ.regs x (σ.mem n) } (pc + 1) ∧
+      (step sem env P st).regs Special.ra = st.regs Special.ra := by
+  obtain ⟨hr, hm, hp, ht, hh⟩ := h
+  have hv : a.eval st.regs = a.eval σ.regs := eval_ok st.regs σ.regs hr a hao
+  simp only [step, hh, hp, hi, Bool.false_eq_true, if_false, IC10.exec, List.map_cons, List.map_nil, hv, ha, hn, if_true, hm, applyOut, writeBack, updOpt]
+  refine ⟨⟨?_, rfl, by simp [hp], by simp [ht], rfl⟩, by simp [upd, Ne.symm hx]⟩
+  intro r hr'
+  simp only [upd]
+  split
+  · rfl
+  · exact hr r hr'
+
+theorem step_plain (h : At st σ pc) (i : Instr Reg V) (hi : P[pc]? = some i) (σ' : SSt V) (hregs : σ'.regs = σ.regs)
+    (hstep : step sem env P st = { regs := st.regs, mem := σ'.mem, pc := pc + 1, trace := σ'.trace, halted := false }) :
+    At (step sem env P st) σ' (pc + 1) ∧ (step sem env P st).regs Special.ra = st.regs Special.ra := by
+  rw [hstep]
+  exact ⟨⟨fun r hr' => by rw [hregs]; exact h.regs r hr', rfl, rfl, rfl, rfl⟩, rfl⟩
+
+theorem step_store (h : At st σ pc) (q : String) (args : List (Opnd Reg V)) (ha : ∀ o ∈ args, opndOk o)
+    (hi : P[pc]? = some ⟨.store q, none, args⟩) :
+    At (step sem env P st) { σ with trace := ⟨q, evalArgs σ.regs args⟩ :: σ.trace } (pc + 1) ∧
+      (step sem env P st).regs Special.ra = st.regs Special.ra := by
+  have hv : args.map (Opnd.eval st.regs) = evalArgs σ.regs args := evalArgs_ok st.regs σ.regs h.regs args ha
+  refine step_plain sem env P st σ pc h _ hi { σ with trace := ⟨q, evalArgs σ.regs args⟩ :: σ.trace } rfl ?_
+  simp [step, h.halted, h.pc, hi, IC10.exec, hv, applyOut, writeBack, updOpt, h.mem, h.trace]
+
+theorem step_putm (h : At st σ pc) (a v : Opnd Reg V) (n : Nat) (hao : opndOk a) (hvo : opndOk v)
+    (ha : sem.toAddr (a.eval σ.regs) = some n) (hn : n < stackSize) (hi : P[pc]? = some ⟨.poke, none, [a, v]⟩) :
+    At (step sem env P st) { σ with mem := updMem σ.mem n (v.eval σ.regs) } (pc + 1) ∧
+      (step sem env P st).regs Special.ra = st.regs Special.ra := by
+  have e1 : a.eval st.regs = a.eval σ.regs := eval_ok st.regs σ.regs h.regs a hao
+  have e2 : v.eval st.regs = v.eval σ.regs := eval_ok st.regs σ.regs h.regs v hvo
+  refine step_plain sem env P st σ pc h _ hi { σ with mem := updMem σ.mem n (v.eval σ.regs) } rfl ?_
+  simp [step, h.halted, h.pc, hi, IC10.exec, e1, e2, ha, hn, applyOut, writeBack, updOpt, h.mem, h.trace]
+
+theorem step_yield (h : At st σ pc) (hi : P[pc]? = some ⟨.yield, none, []⟩) :
+    At (step sem env P st) { σ with trace := ⟨"yield", []⟩ :: σ.trace } (pc + 1) ∧
+      (step sem env P st).regs Special.ra = st.regs Special.ra := by
+  refine step_plain sem env P st σ pc h _ hi { σ with trace := ⟨"yield", []⟩ :: σ.trace } rfl ?_
+  simp [step, h.halted, h.pc, hi, IC10.exec, applyOut, writeBack, updOpt, h.mem, h.trace]
+
+theorem step_sleep (h : At st σ pc) (a : Opnd Reg V) (hao : opndOk a) (hi : P[pc]? = some ⟨.sleep, none, [a]⟩) :
+    At (step sem env P st) { σ with trace := ⟨"sleep", [a.eval σ.regs]⟩ :: σ.trace } (pc + 1) ∧
+      (step sem env P st).regs Special.ra = st.regs Special.ra := by
+  have e1 : a.eval st.regs = a.eval σ.regs := eval_ok st.regs σ.regs h.regs a hao
+  refine step_plain sem env P st σ pc h _ hi { σ with trace := ⟨"sleep", [a.eval σ.regs]⟩ :: σ.trace } rfl ?_
+  simp [step, h.halted, h.pc, hi, IC10.exec, e1, applyOut, writeBack, updOpt, h.mem, h.trace]
+
+theorem step_nop (h : At st σ pc) (hi : P[pc]? = some nopI) :
+    At (step sem env P st) σ (pc + 1) ∧ (step sem env P st).regs Special.ra = st.regs Special.ra := by
+  refine step_plain sem env P st σ pc h _ hi σ rfl ?_
+  simp [step, h.halted, h.pc, hi, nopI, IC10.exec, applyOut, writeBack, updOpt, h.mem, h.trace]
+
+theorem step_jmp (h : At st σ pc) (lit : Nat → V) (n : Nat) (hl : sem.toAddr (lit n) = some n) (hi : P[pc]? = some ⟨.jmp, none, [.num (lit n)]⟩) :
+    At (step sem env P st) σ n ∧ (step sem env P st).regs Special.ra = st.regs Special.ra := by
+  have hs : step sem env P st = { regs := st.regs, mem := st.mem, pc := n, trace := st.trace, halted := false } := by
+    simp [step, h.halted, h.pc, hi, IC10.exec, target, Opnd.eval, hl, applyOut, writeBack, updOpt]
+  rw [hs]
+  exact ⟨⟨h.regs, h.mem, rfl, h.trace, rfl⟩, rfl⟩
+
+theorem step_br (h : At st σ pc) (lit : Nat → V) (c : String) (args : List (Opnd Reg V)) (n : Nat) (hl : sem.toAddr (lit n) = some n)
+    (ha : ∀ o ∈ args, opndOk o) (hi : P[pc]? = some ⟨.br c, none, args ++ [.num (lit n)]⟩) :
+    At (step sem env P st) σ (if sem.cond c (evalArgs σ.regs args) then n else pc + 1) ∧
+      (step sem env P st).regs Special.ra = st.regs Special.ra := by
+  have hv : (args ++ [Opnd.num (lit n)]).map (Opnd.eval st.regs) = evalArgs σ.regs args ++ [lit n] := by
+    have := evalArgs_ok st.regs σ.regs h.regs args ha
+    simp only [evalArgs] at this
+    simp [evalArgs, Opnd.eval, this]
   by_cases hc : sem.cond c (evalArgs σ.regs args) = true
-  · simp only [step, mk, h, IC10.exec, hv, dropLast_snoc', getLastD_snoc', hc, if_true, target, hl, applyOut, writeBack, updOpt, Bool.false_eq_true, if_false]
-    simp
+  · have hs : step sem env P st = { regs := st.regs, mem := st.mem, pc := n, trace := st.trace, halted := false } := by
+      simp only [step, h.halted, h.pc, hi, IC10.exec, hv, dropLast_snoc', getLastD_snoc', hc, if_true, target, hl, applyOut, writeBack, updOpt, Bool.false_eq_true, if_false]
+      simp
+    rw [hs, if_pos hc]
+    exact ⟨⟨h.regs, h.mem, rfl, h.trace, rfl⟩, rfl⟩
   · have hc' : sem.cond c (evalArgs σ.regs args) = false := by simpa using hc
-    simp only [step, mk, h, IC10.exec, hv, dropLast_snoc', hc', Bool.false_eq_true, if_false, applyOut, writeBack, updOpt]
-    simp
+    have hs : step sem env P st = { regs := st.regs, mem := st.mem, pc := pc + 1, trace := st.trace, halted := false } := by
+      simp only [step, h.halted, h.pc, hi, IC10.exec, hv, dropLast_snoc', hc', Bool.false_eq_true, if_false, applyOut, writeBack, updOpt]
+      simp [h.pc]
+    rw [hs, if_neg hc]
+    exact ⟨⟨h.regs, h.mem, rfl, h.trace, rfl⟩, rfl⟩
+
+/-- `jal`: `ra` receives the line after the call, everything else stays -/
+theorem step_jal (h : At st σ pc) (lit : Nat → V) (n : Nat) (hl : sem.toAddr (lit n) = some n) (hi : P[pc]? = some ⟨.jal, none, [.num (lit n)]⟩) :
+    At (step sem env P st) σ n ∧ (step sem env P st).regs Special.ra = sem.ofNat (pc + 1) := by
+  have hs : step sem env P st = { regs := upd st.regs Special.ra (sem.ofNat (pc + 1)), mem := st.mem, pc := n, trace := st.trace, halted := false } := by
+    simp [step, h.halted, h.pc, hi, IC10.exec, target, Opnd.eval, hl, applyOut, writeBack, updOpt]
+  rw [hs]
+  refine ⟨⟨fun r hr' => ?_, h.mem, rfl, h.trace, rfl⟩, by simp [upd]⟩
+  simp only [upd, hr', if_false]
+  exact h.regs r hr'
+
+/-- `j ra`: continues at the line `ra` holds -/
+theorem step_ret (h : At st σ pc) (n : Nat) (hra : sem.toAddr (st.regs Special.ra) = some n) (hi : P[pc]? = some ⟨.jmp, none, [.reg Special.ra]⟩) :
+    At (step sem env P st) σ n ∧ (step sem env P st).regs Special.ra = st.regs Special.ra := by
+  have hs : step sem env P st = { regs := st.regs, mem := st.mem, pc := n, trace := st.trace, halted := false } := by
+    simp [step, h.halted, h.pc, hi, IC10.exec, target, Opnd.eval, hra, applyOut, writeBack, updOpt]
+  rw [hs]
+  exact ⟨⟨h.regs, h.mem, rfl, h.trace, rfl⟩, rfl⟩
 
 end steps
 
 /-! ### the simulation -/
 
-/-- the line at which a statement's exit lands: the next line, or the enclosing loop's end / start label -/
-def land (e : Exit) (next cl bl : Nat) : Nat :=
+/-- the line at which a statement's exit lands: the next line, the enclosing loop's end / start label, the procedure's end label -/
+def land (e : Exit) (next cl bl rl : Nat) : Nat :=
   match e with
   | .norm => next
   | .brk => bl
   | .cont => cl
+  | .ret => rl
 
-def Claim (sem : Sem V) (env : Env V) (lit : Nat → V) (P : List (Instr Reg V)) (mem : Nat → V) (n : Nat) (s : Stmt V) : Prop :=
-  ∀ (base cl bl : Nat) (σ : SSt V), CodeAt P base (comp lit s base cl bl) →
-    (∀ e σ', exec sem env n s σ = .ok e σ' → ∃ k, run sem env P k (mk σ mem base) = mk σ' mem (land e (base + size s) cl bl)) ∧
-    (∀ σ', exec sem env n s σ = .timeout σ' → ∃ k pc, n ≤ k ∧ run sem env P k (mk σ mem base) = mk σ' mem pc)
+theorem run_step (sem : Sem V) (env : Env V) (P : List (Instr Reg V)) (k : Nat) (st : St Reg V) :
+    run sem env P (k + 1) st = step sem env P (run sem env P k st) := by
+  induction k generalizing st with
+  | zero => rfl
+  | succ k ih => exact ih (step sem env P st)
 
-theorem claim_stmt (sem : Sem V) (env : Env V) (lit : Nat → V) (hlit : ∀ n, sem.toAddr (lit n) = some n)
-    (P : List (Instr Reg V)) (mem : Nat → V) (n : Nat)
-    (hprev : ∀ m, n = m + 1 → ∀ s, NegOk sem s → Claim sem env lit P mem m s) :
-    ∀ s, NegOk sem s → Claim sem env lit P mem n s := by
+theorem good_mono (sem : Sem V) (a b : Nat → Prop) (hab : ∀ k, a k → b k) : ∀ s : Stmt V, Good sem a s → Good sem b s := by
+  intro s
+  induction s with
+  | call k => intro h; exact hab k h
+  | seq p q ihp ihq => intro h; exact ⟨ihp h.1, ihq h.2⟩
+  | ite c neg args p q ihp ihq => intro h; exact ⟨h.1, h.2.1, ihp h.2.2.1, ihq h.2.2.2⟩
+  | ifThen c neg args p ihp => intro h; exact ⟨h.1, h.2.1, ihp h.2.2⟩
+  | «while» c neg args body ih => intro h; exact ⟨h.1, h.2.1, ih h.2.2⟩
+  | loop body ih => intro h; exact ih h
+  | _ => intro h; exact h
+
+theorem good_false_nocall (sem : Sem V) : ∀ s : Stmt V, Good sem (fun _ => False) s → NoCall s := by
+  intro s
+  induction s with
+  | call k => intro h; exact h
+  | seq p q ihp ihq => intro h; exact ⟨ihp h.1, ihq h.2⟩
+  | ite c neg args p q ihp ihq => intro h; exact ⟨ihp h.2.2.1, ihq h.2.2.2⟩
+  | ifThen c neg args p ihp => intro h; exact ihp h.2.2
+  | «while» c neg args body ih => intro h; exact ih h.2.2
+  | loop body ih => intro h; exact ih h
+  | _ => intro _; trivial
+
+section sim
+variable (sem : Sem V) (env : Env V) (lit : Nat → V) (entry : Nat → Nat) (F : Nat → Stmt V) (P : List (Instr Reg V))
+
+/-- procedure `k` sits at its entry line, calls nothing and is well formed -/
+structure ProcOk (k : Nat) : Prop where
+  code : CodeAt P (entry k) (compProc lit entry (F k) k)
+  good : Good sem (fun _ => False) (F k)
+
+def Claim (n : Nat) (s : Stmt V) : Prop :=
+  ∀ (base cl bl rl : Nat) (σ : SSt V) (st : St Reg V), CodeAt P base (comp lit entry s base cl bl rl) → At st σ base →
+    (∀ e σ', exec sem env F n s σ = .ok e σ' →
+        ∃ k, At (run sem env P k st) σ' (land e (base + size s) cl bl rl) ∧
+             (NoCall s → (run sem env P k st).regs Special.ra = st.regs Special.ra)) ∧
+    (∀ σ', exec sem env F n s σ = .timeout σ' → ∃ k pc, n ≤ k ∧ At (run sem env P k st) σ' pc)
+
+theorem claim_stmt (hlit : ∀ n, sem.toAddr (lit n) = some n) (hof : ∀ n, sem.toAddr (sem.ofNat n) = some n)
+    (ok : Nat → Prop) (hok : ∀ k, ok k → ProcOk sem lit entry F P k) (n : Nat)
+    (hprev : ∀ m, n = m + 1 → ∀ s, Good sem ok s → Claim sem env lit entry F P m s) :
+    ∀ s, Good sem ok s → Claim sem env lit entry F P n s := by
   intro s
   induction s with
   | alu x op args =>
-    intro _ base cl bl σ hc
+    intro hg base cl bl rl σ st hc hat
     have hi : P[base]? = some ⟨.alu op, some x, args⟩ := by have := hc 0 (by simp [comp]); simpa [comp] using this
-    refine ⟨fun e σ' h => ⟨1, ?_⟩, fun σ' h => by simp [exec] at h⟩
+    obtain ⟨h1, h2⟩ := step_alu sem env P st σ base hat x op args hg.1 hg.2 hi
+    refine ⟨fun e σ' h => ⟨1, ?_, fun _ => h2⟩, fun σ' h => by simp [exec] at h⟩
     simp only [exec, Res.done, Res.ok.injEq] at h
     obtain ⟨rfl, rfl⟩ := h
-    rw [run_one, step_alu sem env P σ mem base x op args hi]; rfl
+    exact h1
   | load x q args =>
-    intro _ base cl bl σ hc
+    intro hg base cl bl rl σ st hc hat
     have hi : P[base]? = some ⟨.load q, some x, args⟩ := by have := hc 0 (by simp [comp]); simpa [comp] using this
-    refine ⟨fun e σ' h => ⟨1, ?_⟩, fun σ' h => by simp [exec] at h⟩
+    obtain ⟨h1, h2⟩ := step_load sem env P st σ base hat x q args hg.1 hg.2 hi
+    refine ⟨fun e σ' h => ⟨1, ?_, fun _ => h2⟩, fun σ' h => by simp [exec] at h⟩
     simp only [exec, Res.done, Res.ok.injEq] at h
     obtain ⟨rfl, rfl⟩ := h
-    rw [run_one, step_load sem env P σ mem base x q args hi]; rfl
+    exact h1
   | store q args =>
-    intro _ base cl bl σ hc
+    intro hg base cl bl rl σ st hc hat
     have hi : P[base]? = some ⟨.store q, none, args⟩ := by have := hc 0 (by simp [comp]); simpa [comp] using this
-    refine ⟨fun e σ' h => ⟨1, ?_⟩, fun σ' h => by simp [exec] at h⟩
+    obtain ⟨h1, h2⟩ := step_store sem env P st σ base hat q args hg hi
+    refine ⟨fun e σ' h => ⟨1, ?_, fun _ => h2⟩, fun σ' h => by simp [exec] at h⟩
     simp only [exec, Res.done, Res.ok.injEq] at h
     obtain ⟨rfl, rfl⟩ := h
-    rw [run_one, step_store sem env P σ mem base q args hi]; rfl
+    exact h1
   | yield =>
-    intro _ base cl bl σ hc
+    intro hg base cl bl rl σ st hc hat
     have hi : P[base]? = some ⟨.yield, none, []⟩ := by have := hc 0 (by simp [comp]); simpa [comp] using this
-    refine ⟨fun e σ' h => ⟨1, ?_⟩, fun σ' h => by simp [exec] at h⟩
+    obtain ⟨h1, h2⟩ := step_yield sem env P st σ base hat hi
+    refine ⟨fun e σ' h => ⟨1, ?_, fun _ => h2⟩, fun σ' h => by simp [exec] at h⟩
     simp only [exec, Res.done, Res.ok.injEq] at h
     obtain ⟨rfl, rfl⟩ := h
-    rw [run_one, step_yield sem env P σ mem base hi]; rfl
+    exact h1
   | sleep a =>
-    intro _ base cl bl σ hc
+    intro hg base cl bl rl σ st hc hat
     have hi : P[base]? = some ⟨.sleep, none, [a]⟩ := by have := hc 0 (by simp [comp]); simpa [comp] using this
-    refine ⟨fun e σ' h => ⟨1, ?_⟩, fun σ' h => by simp [exec] at h⟩
+    obtain ⟨h1, h2⟩ := step_sleep sem env P st σ base hat a hg hi
+    refine ⟨fun e σ' h => ⟨1, ?_, fun _ => h2⟩, fun σ' h => by simp [exec] at h⟩
     simp only [exec, Res.done, Res.ok.injEq] at h
     obtain ⟨rfl, rfl⟩ := h
-    rw [run_one, step_sleep sem env P σ mem base a hi]; rfl
+    exact h1
   | skip =>
-    intro _ base cl bl σ hc
-    refine ⟨fun e σ' h => ⟨0, ?_⟩, fun σ' h => by simp [exec] at h⟩
+    intro hg base cl bl rl σ st hc hat
+    refine ⟨fun e σ' h => ⟨0, ?_, fun _ => rfl⟩, fun σ' h => by simp [exec] at h⟩
     simp only [exec, Res.done, Res.ok.injEq] at h
     obtain ⟨rfl, rfl⟩ := h
-    simp [run, size, land]
+    simpa [run, size, land] using hat
+  | getm x a =>
+    intro hg base cl bl rl σ st hc hat
+    have hi : P[base]? = some ⟨.getdb, some x, [a]⟩ := by have := hc 0 (by simp [comp]); simpa [comp] using this
+    refine ⟨fun e σ' h => ?_, fun σ' h => ?_⟩
+    · simp only [exec] at h
+      cases ha : sem.toAddr (a.eval σ.regs) with
+      | none => rw [ha] at h; simp at h
+      | some m =>
+        rw [ha] at h
+        simp only at h
+        by_cases hm : m < stackSize
+        · rw [if_pos hm] at h
+          simp only [Res.done, Res.ok.injEq] at h
+          obtain ⟨rfl, rfl⟩ := h
+          obtain ⟨h1, h2⟩ := step_getm sem env P st σ base hat x a m hg.1 hg.2 ha hm hi
+          exact ⟨1, h1, fun _ => h2⟩
+        · rw [if_neg hm] at h; simp at h
+    · simp only [exec] at h
+      cases ha : sem.toAddr (a.eval σ.regs) with
+      | none => rw [ha] at h; simp at h
+      | some m => rw [ha] at h; simp only at h; split at h <;> simp [Res.done] at h
+  | putm a v =>
+    intro hg base cl bl rl σ st hc hat
+    have hi : P[base]? = some ⟨.poke, none, [a, v]⟩ := by have := hc 0 (by simp [comp]); simpa [comp] using this
+    refine ⟨fun e σ' h => ?_, fun σ' h => ?_⟩
+    · simp only [exec] at h
+      cases ha : sem.toAddr (a.eval σ.regs) with
+      | none => rw [ha] at h; simp at h
+      | some m =>
+        rw [ha] at h
+        simp only at h
+        by_cases hm : m < stackSize
+        · rw [if_pos hm] at h
+          simp only [Res.done, Res.ok.injEq] at h
+          obtain ⟨rfl, rfl⟩ := h
+          obtain ⟨h1, h2⟩ := step_putm sem env P st σ base hat a v m hg.1 hg.2 ha hm hi
+          exact ⟨1, h1, fun _ => h2⟩
+        · rw [if_neg hm] at h; simp at h
+    · simp only [exec] at h
+      cases ha : sem.toAddr (a.eval σ.regs) with
+      | none => rw [ha] at h; simp at h
+      | some m => rw [ha] at h; simp only at h; split at h <;> simp [Res.done] at h
   | brk =>
-    intro _ base cl bl σ hc
+    intro hg base cl bl rl σ st hc hat
     have hi : P[base]? = some ⟨.jmp, none, [.num (lit bl)]⟩ := by have := hc 0 (by simp [comp]); simpa [comp] using this
-    refine ⟨fun e σ' h => ⟨1, ?_⟩, fun σ' h => by simp [exec] at h⟩
+    obtain ⟨h1, h2⟩ := step_jmp sem env P st σ base hat lit bl (hlit _) hi
+    refine ⟨fun e σ' h => ⟨1, ?_, fun _ => h2⟩, fun σ' h => by simp [exec] at h⟩
     simp only [exec, Res.ok.injEq] at h
     obtain ⟨rfl, rfl⟩ := h
-    rw [run_one, step_jmp sem env P σ mem base lit bl (hlit _) hi]; rfl
+    exact h1
   | cont =>
-    intro _ base cl bl σ hc
+    intro hg base cl bl rl σ st hc hat
     have hi : P[base]? = some ⟨.jmp, none, [.num (lit cl)]⟩ := by have := hc 0 (by simp [comp]); simpa [comp] using this
-    refine ⟨fun e σ' h => ⟨1, ?_⟩, fun σ' h => by simp [exec] at h⟩
+    obtain ⟨h1, h2⟩ := step_jmp sem env P st σ base hat lit cl (hlit _) hi
+    refine ⟨fun e σ' h => ⟨1, ?_, fun _ => h2⟩, fun σ' h => by simp [exec] at h⟩
     simp only [exec, Res.ok.injEq] at h
     obtain ⟨rfl, rfl⟩ := h
-    rw [run_one, step_jmp sem env P σ mem base lit cl (hlit _) hi]; rfl
+    exact h1
+  | ret =>
+    intro hg base cl bl rl σ st hc hat
+    have hi : P[base]? = some ⟨.jmp, none, [.num (lit rl)]⟩ := by have := hc 0 (by simp [comp]); simpa [comp] using this
+    obtain ⟨h1, h2⟩ := step_jmp sem env P st σ base hat lit rl (hlit _) hi
+    refine ⟨fun e σ' h => ⟨1, ?_, fun _ => h2⟩, fun σ' h => by simp [exec] at h⟩
+    simp only [exec, Res.ok.injEq] at h
+    obtain ⟨rfl, rfl⟩ := h
+    exact h1
+  | call j =>
+    intro hg base cl bl rl σ st hc hat
+    have hp := hok j hg
+    have hi : P[base]? = some ⟨.jal, none, [.num (lit (entry j))]⟩ := by have := hc 0 (by simp [comp]); simpa [comp] using this
+    -- the procedure's block: label ; body ; end label ; j ra
+    have hblock : CodeAt P (entry j) ([nopI] ++ (comp lit entry (F j) (entry j + 1) 0 0 (entry j + 1 + size (F j)) ++ [nopI, ⟨.jmp, none, [.reg Special.ra]⟩])) := by
+      simpa [compProc, List.append_assoc] using hp.code
+    have hlab : P[entry j]? = some nopI := by have := hblock 0 (by simp); simpa using this
+    have hb1 := hblock.right
+    simp only [List.length_singleton] at hb1
+    have hbody := hb1.left
+    have hb2 := hb1.right
+    rw [comp_length] at hb2
+    have hend : P[entry j + 1 + size (F j)]? = some nopI := by have := hb2 0 (by simp); simpa using this
+    have hjra : P[entry j + 1 + size (F j) + 1]? = some ⟨.jmp, none, [.reg Special.ra]⟩ := by have := hb2 1 (by simp); simpa using this
+    have hgood : Good sem ok (F j) := good_mono sem _ ok (fun _ h => h.elim) (F j) hp.good
+    have hleaf : NoCall (F j) := good_false_nocall sem (F j) hp.good
+    obtain ⟨hj1, hra1⟩ := step_jal sem env P st σ base hat lit (entry j) (hlit _) hi
+    obtain ⟨hj2, hra2⟩ := step_nop sem env P _ σ (entry j) hj1 hlab
+    cases n with
+    | zero =>
+      refine ⟨fun e σ' h => by simp [exec] at h, fun σ' h => ?_⟩
+      simp only [exec, Res.timeout.injEq] at h
+      subst h
+      exact ⟨0, base, Nat.le_refl 0, hat⟩
+    | succ m =>
+      have hcl := hprev m rfl (F j) hgood (entry j + 1) 0 0 (entry j + 1 + size (F j)) σ _ hbody hj2
+      constructor
+      · intro e σ' h
+        simp only [exec] at h
+        cases hb : exec sem env F m (F j) σ with
+        | ok e1 σ1 =>
+          rw [hb] at h
+          obtain ⟨k1, h1, hr1⟩ := hcl.1 e1 σ1 hb
+          have hfin : ∀ (hat1 : At (run sem env P k1 (step sem env P (step sem env P st))) σ1 (entry j + 1 + size (F j))),
+              ∃ k, At (run sem env P k st) σ1 (base + 1) := by
+            intro hat1
+            obtain ⟨hn1, hrn1⟩ := step_nop sem env P _ σ1 _ hat1 hend
+            have hraval : sem.toAddr ((step sem env P (run sem env P k1 (step sem env P (step sem env P st)))).regs Special.ra) = some (base + 1) := by
+              rw [hrn1, hr1 hleaf, hra2, hra1, hof]
+            obtain ⟨hn2, _⟩ := step_ret sem env P _ σ1 _ hn1 (base + 1) hraval hjra
+            refine ⟨k1 + 1 + 1 + 1 + 1, ?_⟩
+            have e : run sem env P (k1 + 1 + 1 + 1 + 1) st = run sem env P (k1 + 1 + 1) (step sem env P (step sem env P st)) := rfl
+            rw [e, run_step, run_step]
+            exact hn2
+          cases e1 with
+          | norm =>
+            simp only [Res.done, Res.ok.injEq] at h
+            obtain ⟨rfl, rfl⟩ := h
+            obtain ⟨k, hk⟩ := hfin (by simpa [land] using h1)
+            exact ⟨k, hk, fun hnc => hnc.elim⟩
+          | ret =>
+            simp only [Res.done, Res.ok.injEq] at h
+            obtain ⟨rfl, rfl⟩ := h
+            obtain ⟨k, hk⟩ := hfin (by simpa [land] using h1)
+            exact ⟨k, hk, fun hnc => hnc.elim⟩
+          | brk => simp at h
+          | cont => simp at h
+        | timeout σ1 => rw [hb] at h; simp at h
+        | stuck => rw [hb] at h; simp at h
+      · intro σ' h
+        simp only [exec] at h
+        cases hb : exec sem env F m (F j) σ with
+        | ok e1 σ1 => rw [hb] at h; cases e1 <;> simp [Res.done] at h
+        | timeout σ1 =>
+          rw [hb] at h
+          simp only [Res.timeout.injEq] at h
+          subst h
+          obtain ⟨k1, pc, hle, h1⟩ := hcl.2 σ1 hb
+          refine ⟨k1 + 1 + 1, pc, by omega, ?_⟩
+          exact h1
+        | stuck => rw [hb] at h; simp at h
   | seq p q ihp ihq =>
-    intro hn base cl bl σ hc
-    obtain ⟨hnp, hnq⟩ := hn
+    intro hg base cl bl rl σ st hc hat
+    obtain ⟨hgp, hgq⟩ := hg
     simp only [comp] at hc
     have hcp := hc.left
     have hcq := hc.right
     rw [comp_length] at hcq
+    have esz : base + size (p.seq q) = base + size p + size q := by simp [size, Nat.add_assoc]
     constructor
     · intro e σ' h
       simp only [exec] at h
-      cases hp : exec sem env n p σ with
+      cases hp : exec sem env F n p σ with
       | ok e1 σ1 =>
         rw [hp] at h
-        obtain ⟨k1, hk1⟩ := (ihp hnp base cl bl σ hcp).1 e1 σ1 hp
+        obtain ⟨k1, h1, hr1⟩ := (ihp hgp base cl bl rl σ st hcp hat).1 e1 σ1 hp
         cases e1 with
         | norm =>
-          simp only [land] at hk1
+          simp only [land] at h1
           simp only at h
-          obtain ⟨k2, hk2⟩ := (ihq hnq (base + size p) cl bl σ1 hcq).1 e σ' h
-          exact ⟨k1 + k2, by rw [run_add, hk1, hk2, size, Nat.add_assoc]⟩
+          obtain ⟨k2, h2, hr2⟩ := (ihq hgq (base + size p) cl bl rl σ1 _ hcq h1).1 e σ' h
+          refine ⟨k1 + k2, ?_, fun hnc => ?_⟩
+          · rw [run_add, esz]; exact h2
+          · rw [run_add, hr2 hnc.2, hr1 hnc.1]
         | brk =>
           simp only [Res.ok.injEq] at h
           obtain ⟨rfl, rfl⟩ := h
-          exact ⟨k1, hk1⟩
+          exact ⟨k1, h1, fun hnc => hr1 hnc.1⟩
         | cont =>
           simp only [Res.ok.injEq] at h
           obtain ⟨rfl, rfl⟩ := h
-          exact ⟨k1, hk1⟩
+          exact ⟨k1, h1, fun hnc => hr1 hnc.1⟩
+        | ret =>
+          simp only [Res.ok.injEq] at h
+          obtain ⟨rfl, rfl⟩ := h
+          exact ⟨k1, h1, fun hnc => hr1 hnc.1⟩
       | timeout σ1 => rw [hp] at h; simp at h
+      | stuck => rw [hp] at h; simp at h
     · intro σ' h
       simp only [exec] at h
-      cases hp : exec sem env n p σ with
+      cases hp : exec sem env F n p σ with
       | ok e1 σ1 =>
         rw [hp] at h
-        obtain ⟨k1, hk1⟩ := (ihp hnp base cl bl σ hcp).1 e1 σ1 hp
+        obtain ⟨k1, h1, hr1⟩ := (ihp hgp base cl bl rl σ st hcp hat).1 e1 σ1 hp
         cases e1 with
         | norm =>
-          simp only [land] at hk1
+          simp only [land] at h1
           simp only at h
-          obtain ⟨k2, pc, hle, hk2⟩ := (ihq hnq (base + size p) cl bl σ1 hcq).2 σ' h
-          exact ⟨k1 + k2, pc, by omega, by rw [run_add, hk1, hk2]⟩
+          obtain ⟨k2, pc, hle, h2⟩ := (ihq hgq (base + size p) cl bl rl σ1 _ hcq h1).2 σ' h
+          exact ⟨k1 + k2, pc, by omega, by rw [run_add]; exact h2⟩
         | brk => simp at h
         | cont => simp at h
+        | ret => simp at h
       | timeout σ1 =>
         rw [hp] at h
         simp only [Res.timeout.injEq] at h
-        obtain ⟨k1, pc, hle, hk1⟩ := (ihp hnp base cl bl σ hcp).2 σ1 hp
-        exact ⟨k1, pc, hle, by rw [hk1, h]⟩
+        subst h
+        exact (ihp hgp base cl bl rl σ st hcp hat).2 σ1 hp
+      | stuck => rw [hp] at h; simp at h
   | ite c neg args p q ihp ihq =>
-    intro hn base cl bl σ hc
-    obtain ⟨hneg, hnp, hnq⟩ := hn
-    -- layout: br ; p ; jmp ; nop ; q ; nop
+    intro hg base cl bl rl σ st hc hat
+    obtain ⟨hneg, hargs, hgp, hgq⟩ := hg
     have hbr : P[base]? = some ⟨.br neg, none, args ++ [.num (lit (base + size p + 2))]⟩ := by
       have := hc 0 (by simp [comp]); simpa [comp] using this
-    have hcode : CodeAt P base ([⟨.br neg, none, args ++ [.num (lit (base + size p + 2))]⟩] ++ (comp lit p (base + 1) cl bl ++
-        ([⟨.jmp, none, [.num (lit (base + size p + size q + 3))]⟩, nopI] ++ (comp lit q (base + size p + 3) cl bl ++ [nopI])))) := by
+    have hcode : CodeAt P base ([⟨.br neg, none, args ++ [.num (lit (base + size p + 2))]⟩] ++ (comp lit entry p (base + 1) cl bl rl ++
+        ([⟨.jmp, none, [.num (lit (base + size p + size q + 3))]⟩, nopI] ++ (comp lit entry q (base + size p + 3) cl bl rl ++ [nopI])))) := by
       simpa [comp, List.append_assoc] using hc
     have h1 := hcode.right
     simp only [List.length_singleton] at h1
@@ -253,87 +552,81 @@ theorem claim_stmt (sem : Sem V) (env : Env V) (lit : Nat → V) (hlit : ∀ n, 
     rw [comp_length] at h2
     have hjmp : P[base + 1 + size p]? = some ⟨.jmp, none, [.num (lit (base + size p + size q + 3))]⟩ := by
       have := h2 0 (by simp); simpa using this
-    have helse : P[base + 1 + size p + 1]? = some nopI := by
-      have := h2 1 (by simp); simpa using this
+    have helse : P[base + size p + 2]? = some nopI := by
+      have := h2 1 (by simp)
+      have e : base + 1 + size p + 1 = base + size p + 2 := by omega
+      rw [e] at this; simpa using this
     have h3 := h2.right
     simp only [List.length_cons, List.length_nil] at h3
-    have hcq : CodeAt P (base + size p + 3) (comp lit q (base + size p + 3) cl bl) := by
+    have hcq : CodeAt P (base + size p + 3) (comp lit entry q (base + size p + 3) cl bl rl) := by
       have := h3.left
       have e : base + 1 + size p + (0 + 1 + 1) = base + size p + 3 := by omega
       rw [e] at this; exact this
-    have hend : P[base + size p + 3 + size q]? = some nopI := by
+    have hend : P[base + size p + size q + 3]? = some nopI := by
       have := h3.right
       rw [comp_length] at this
-      have e : base + 1 + size p + (0 + 1 + 1) + size q = base + size p + 3 + size q := by omega
+      have e : base + 1 + size p + (0 + 1 + 1) + size q = base + size p + size q + 3 := by omega
       rw [e] at this
       have := this 0 (by simp); simpa using this
-    have hstep := step_br sem env P σ mem base lit neg args (base + size p + 2) (hlit _) hbr
-    rw [hneg _ (by simp [evalArgs])] at hstep
+    have esz : base + size (Stmt.ite c neg args p q) = base + size p + size q + 3 + 1 := by simp [size]; omega
+    obtain ⟨hb1, rb1⟩ := step_br sem env P st σ base hat lit neg args (base + size p + 2) (hlit _) hargs hbr
+    rw [hneg _ (by simp [evalArgs])] at hb1
     by_cases hb : sem.cond c (evalArgs σ.regs args) = true
-    · -- then-branch: falls through the branch, runs p, jumps to the end
-      simp only [hb, Bool.not_true, Bool.false_eq_true, if_false] at hstep
-      have hjstep : ∀ σ1 : SSt V, step sem env P (mk σ1 mem (base + 1 + size p)) = mk σ1 mem (base + size p + size q + 3) :=
-        fun σ1 => step_jmp sem env P σ1 mem (base + 1 + size p) lit _ (hlit _) hjmp
-      have hestep : ∀ σ1 : SSt V, step sem env P (mk σ1 mem (base + size p + size q + 3)) = mk σ1 mem (base + size p + size q + 4) := by
-        intro σ1
-        have e : base + size p + size q + 3 = base + size p + 3 + size q := by omega
-        rw [e]; rw [step_nop sem env P σ1 mem _ hend]
-        exact congrArg (mk σ1 mem) (by omega)
+    · simp only [hb, Bool.not_true, Bool.false_eq_true, if_false] at hb1
       constructor
       · intro e σ' h
         simp only [exec, hb, if_true] at h
-        obtain ⟨k1, hk1⟩ := (ihp hnp (base + 1) cl bl σ hcp).1 e σ' h
+        obtain ⟨k1, hk1, hr1⟩ := (ihp hgp (base + 1) cl bl rl σ _ hcp hb1).1 e σ' h
+        have hrun : ∀ k, run sem env P (k + 1) st = run sem env P k (step sem env P st) := fun k => rfl
         cases e with
         | norm =>
-          simp only [land] at hk1 ⊢
-          refine ⟨1 + (k1 + (1 + 1)), ?_⟩
-          rw [run_add, run_add, run_add, run_one, run_one, run_one, hstep, hk1, hjstep, hestep]
-          exact congrArg (mk _ mem) (by simp only [size]; omega)
-        | brk =>
-          simp only [land] at hk1 ⊢
-          exact ⟨1 + k1, by rw [run_add, run_one, hstep, hk1]⟩
-        | cont =>
-          simp only [land] at hk1 ⊢
-          exact ⟨1 + k1, by rw [run_add, run_one, hstep, hk1]⟩
+          simp only [land] at hk1
+          obtain ⟨hj, rj⟩ := step_jmp sem env P _ σ' _ hk1 lit _ (hlit _) hjmp
+          obtain ⟨he, re⟩ := step_nop sem env P _ σ' _ hj hend
+          refine ⟨k1 + 1 + 1 + 1, ?_, fun hnc => ?_⟩
+          · rw [hrun, run_step, run_step]; simp only [land]; rw [esz]; exact he
+          · rw [hrun, run_step, run_step, re, rj, hr1 hnc.1, rb1]
+        | brk => exact ⟨k1 + 1, by rw [hrun]; exact hk1, fun hnc => by rw [hrun, hr1 hnc.1, rb1]⟩
+        | cont => exact ⟨k1 + 1, by rw [hrun]; exact hk1, fun hnc => by rw [hrun, hr1 hnc.1, rb1]⟩
+        | ret => exact ⟨k1 + 1, by rw [hrun]; exact hk1, fun hnc => by rw [hrun, hr1 hnc.1, rb1]⟩
       · intro σ' h
         simp only [exec, hb, if_true] at h
-        obtain ⟨k1, pc, hle, hk1⟩ := (ihp hnp (base + 1) cl bl σ hcp).2 σ' h
-        exact ⟨1 + k1, pc, by omega, by rw [run_add, run_one, hstep, hk1]⟩
-    · -- else-branch: the branch is taken to the else label
-      have hb' : sem.cond c (evalArgs σ.regs args) = false := by simpa using hb
-      simp only [hb', Bool.not_false, if_true] at hstep
-      have hlstep : step sem env P (mk σ mem (base + size p + 2)) = mk σ mem (base + size p + 3) := by
-        have e : base + size p + 2 = base + 1 + size p + 1 := by omega
-        rw [e, step_nop sem env P σ mem _ helse]
-        exact congrArg (mk σ mem) (by omega)
-      have hestep : ∀ σ1 : SSt V, step sem env P (mk σ1 mem (base + size p + 3 + size q)) = mk σ1 mem (base + size p + 3 + size q + 1) :=
-        fun σ1 => step_nop sem env P σ1 mem _ hend
+        obtain ⟨k1, pc, hle, hk1⟩ := (ihp hgp (base + 1) cl bl rl σ _ hcp hb1).2 σ' h
+        exact ⟨k1 + 1, pc, by omega, hk1⟩
+    · have hb' : sem.cond c (evalArgs σ.regs args) = false := by simpa using hb
+      simp only [hb', Bool.not_false, if_true] at hb1
+      obtain ⟨hl1, rl1⟩ := step_nop sem env P _ σ _ hb1 helse
+      have e3 : base + size p + 2 + 1 = base + size p + 3 := by omega
+      rw [e3] at hl1
+      have hrun2 : ∀ k, run sem env P (k + 1 + 1) st = run sem env P k (step sem env P (step sem env P st)) := fun k => rfl
       constructor
       · intro e σ' h
         simp only [exec, hb', Bool.false_eq_true, if_false] at h
-        obtain ⟨k1, hk1⟩ := (ihq hnq (base + size p + 3) cl bl σ hcq).1 e σ' h
+        obtain ⟨k1, hk1, hr1⟩ := (ihq hgq (base + size p + 3) cl bl rl σ _ hcq hl1).1 e σ' h
         cases e with
         | norm =>
-          simp only [land] at hk1 ⊢
-          refine ⟨1 + (1 + (k1 + 1)), ?_⟩
-          rw [run_add, run_add, run_add, run_one, run_one, run_one, hstep, hlstep, hk1, hestep]
-          exact congrArg (mk _ mem) (by simp only [size]; omega)
-        | brk =>
-          simp only [land] at hk1 ⊢
-          exact ⟨1 + (1 + k1), by rw [run_add, run_add, run_one, run_one, hstep, hlstep, hk1]⟩
-        | cont =>
-          simp only [land] at hk1 ⊢
-          exact ⟨1 + (1 + k1), by rw [run_add, run_add, run_one, run_one, hstep, hlstep, hk1]⟩
+          simp only [land] at hk1
+          have e4 : base + size p + 3 + size q = base + size p + size q + 3 := by omega
+          rw [e4] at hk1
+          obtain ⟨he, re⟩ := step_nop sem env P _ σ' _ hk1 hend
+          refine ⟨k1 + 1 + 1 + 1, ?_, fun hnc => ?_⟩
+          · have : run sem env P (k1 + 1 + 1 + 1) st = run sem env P (k1 + 1) (step sem env P (step sem env P st)) := rfl
+            rw [this, run_step]; simp only [land]; rw [esz]; exact he
+          · have : run sem env P (k1 + 1 + 1 + 1) st = run sem env P (k1 + 1) (step sem env P (step sem env P st)) := rfl
+            rw [this, run_step, re, hr1 hnc.2, rl1, rb1]
+        | brk => exact ⟨k1 + 1 + 1, by rw [hrun2]; exact hk1, fun hnc => by rw [hrun2, hr1 hnc.2, rl1, rb1]⟩
+        | cont => exact ⟨k1 + 1 + 1, by rw [hrun2]; exact hk1, fun hnc => by rw [hrun2, hr1 hnc.2, rl1, rb1]⟩
+        | ret => exact ⟨k1 + 1 + 1, by rw [hrun2]; exact hk1, fun hnc => by rw [hrun2, hr1 hnc.2, rl1, rb1]⟩
       · intro σ' h
         simp only [exec, hb', Bool.false_eq_true, if_false] at h
-        obtain ⟨k1, pc, hle, hk1⟩ := (ihq hnq (base + size p + 3) cl bl σ hcq).2 σ' h
-        exact ⟨1 + (1 + k1), pc, by omega, by rw [run_add, run_add, run_one, run_one, hstep, hlstep, hk1]⟩
+        obtain ⟨k1, pc, hle, hk1⟩ := (ihq hgq (base + size p + 3) cl bl rl σ _ hcq hl1).2 σ' h
+        exact ⟨k1 + 1 + 1, pc, by omega, hk1⟩
   | ifThen c neg args p ihp =>
-    intro hn base cl bl σ hc
-    obtain ⟨hneg, hnp⟩ := hn
+    intro hg base cl bl rl σ st hc hat
+    obtain ⟨hneg, hargs, hgp⟩ := hg
     have hbr : P[base]? = some ⟨.br neg, none, args ++ [.num (lit (base + size p + 1))]⟩ := by
       have := hc 0 (by simp [comp]); simpa [comp] using this
-    have hcode : CodeAt P base ([⟨.br neg, none, args ++ [.num (lit (base + size p + 1))]⟩] ++ (comp lit p (base + 1) cl bl ++ [nopI, nopI])) := by
+    have hcode : CodeAt P base ([⟨.br neg, none, args ++ [.num (lit (base + size p + 1))]⟩] ++ (comp lit entry p (base + 1) cl bl rl ++ [nopI, nopI])) := by
       simpa [comp, List.append_assoc] using hc
     have h1 := hcode.right
     simp only [List.length_singleton] at h1
@@ -342,53 +635,53 @@ theorem claim_stmt (sem : Sem V) (env : Env V) (lit : Nat → V) (hlit : ∀ n, 
     rw [comp_length] at h2
     have hl1 : P[base + 1 + size p]? = some nopI := by have := h2 0 (by simp); simpa using this
     have hl2 : P[base + 1 + size p + 1]? = some nopI := by have := h2 1 (by simp); simpa using this
-    have hstep := step_br sem env P σ mem base lit neg args (base + size p + 1) (hlit _) hbr
-    rw [hneg _ (by simp [evalArgs])] at hstep
-    have hn1 : ∀ σ1 : SSt V, step sem env P (mk σ1 mem (base + 1 + size p)) = mk σ1 mem (base + 1 + size p + 1) :=
-      fun σ1 => step_nop sem env P σ1 mem _ hl1
-    have hn2 : ∀ σ1 : SSt V, step sem env P (mk σ1 mem (base + 1 + size p + 1)) = mk σ1 mem (base + 1 + size p + 1 + 1) :=
-      fun σ1 => step_nop sem env P σ1 mem _ hl2
+    have esz : base + size (Stmt.ifThen c neg args p) = base + 1 + size p + 1 + 1 := by simp [size]; omega
+    obtain ⟨hb1, rb1⟩ := step_br sem env P st σ base hat lit neg args (base + size p + 1) (hlit _) hargs hbr
+    rw [hneg _ (by simp [evalArgs])] at hb1
+    have hrun : ∀ k, run sem env P (k + 1) st = run sem env P k (step sem env P st) := fun k => rfl
     by_cases hb : sem.cond c (evalArgs σ.regs args) = true
-    · simp only [hb, Bool.not_true, Bool.false_eq_true, if_false] at hstep
+    · simp only [hb, Bool.not_true, Bool.false_eq_true, if_false] at hb1
       constructor
       · intro e σ' h
         simp only [exec, hb, if_true] at h
-        obtain ⟨k1, hk1⟩ := (ihp hnp (base + 1) cl bl σ hcp).1 e σ' h
+        obtain ⟨k1, hk1, hr1⟩ := (ihp hgp (base + 1) cl bl rl σ _ hcp hb1).1 e σ' h
         cases e with
         | norm =>
-          simp only [land] at hk1 ⊢
-          refine ⟨1 + (k1 + (1 + 1)), ?_⟩
-          rw [run_add, run_add, run_add, run_one, run_one, run_one, hstep, hk1, hn1, hn2]
-          exact congrArg (mk _ mem) (by simp only [size]; omega)
-        | brk =>
-          simp only [land] at hk1 ⊢
-          exact ⟨1 + k1, by rw [run_add, run_one, hstep, hk1]⟩
-        | cont =>
-          simp only [land] at hk1 ⊢
-          exact ⟨1 + k1, by rw [run_add, run_one, hstep, hk1]⟩
+          simp only [land] at hk1
+          obtain ⟨hn1, rn1⟩ := step_nop sem env P _ σ' _ hk1 hl1
+          obtain ⟨hn2, rn2⟩ := step_nop sem env P _ σ' _ hn1 hl2
+          refine ⟨k1 + 1 + 1 + 1, ?_, fun hnc => ?_⟩
+          · rw [hrun, run_step, run_step]; simp only [land]; rw [esz]; exact hn2
+          · rw [hrun, run_step, run_step, rn2, rn1, hr1 hnc, rb1]
+        | brk => exact ⟨k1 + 1, by rw [hrun]; exact hk1, fun hnc => by rw [hrun, hr1 hnc, rb1]⟩
+        | cont => exact ⟨k1 + 1, by rw [hrun]; exact hk1, fun hnc => by rw [hrun, hr1 hnc, rb1]⟩
+        | ret => exact ⟨k1 + 1, by rw [hrun]; exact hk1, fun hnc => by rw [hrun, hr1 hnc, rb1]⟩
       · intro σ' h
         simp only [exec, hb, if_true] at h
-        obtain ⟨k1, pc, hle, hk1⟩ := (ihp hnp (base + 1) cl bl σ hcp).2 σ' h
-        exact ⟨1 + k1, pc, by omega, by rw [run_add, run_one, hstep, hk1]⟩
+        obtain ⟨k1, pc, hle, hk1⟩ := (ihp hgp (base + 1) cl bl rl σ _ hcp hb1).2 σ' h
+        exact ⟨k1 + 1, pc, by omega, hk1⟩
     · have hb' : sem.cond c (evalArgs σ.regs args) = false := by simpa using hb
-      simp only [hb', Bool.not_false, if_true] at hstep
+      simp only [hb', Bool.not_false, if_true] at hb1
+      have e1 : base + size p + 1 = base + 1 + size p := by omega
+      rw [e1] at hb1
+      obtain ⟨hn1, rn1⟩ := step_nop sem env P _ σ _ hb1 hl1
+      obtain ⟨hn2, rn2⟩ := step_nop sem env P _ σ _ hn1 hl2
       constructor
       · intro e σ' h
         simp only [exec, hb', Bool.false_eq_true, if_false, Res.done, Res.ok.injEq] at h
         obtain ⟨rfl, rfl⟩ := h
-        refine ⟨1 + (1 + 1), ?_⟩
-        rw [run_add, run_add, run_one, run_one, run_one, hstep]
-        have e : base + size p + 1 = base + 1 + size p := by omega
-        rw [e, hn1, hn2]
-        simp only [land]
-        exact congrArg (mk _ mem) (by simp only [size]; omega)
+        refine ⟨1 + 1 + 1, ?_, fun _ => ?_⟩
+        · have : run sem env P (1 + 1 + 1) st = step sem env P (step sem env P (step sem env P st)) := rfl
+          rw [this]; simp only [land]; rw [esz]; exact hn2
+        · have : run sem env P (1 + 1 + 1) st = step sem env P (step sem env P (step sem env P st)) := rfl
+          rw [this, rn2, rn1, rb1]
       · intro σ' h
         simp [exec, hb'] at h
   | «while» c neg args body ih =>
-    intro hn base cl bl σ hc
-    obtain ⟨hneg, hnb⟩ := hn
+    intro hg base cl bl rl σ st hc hat
+    obtain ⟨hneg, hargs, hgb⟩ := hg
     have hcode : CodeAt P base ([nopI] ++ ([⟨.br neg, none, args ++ [.num (lit (base + size body + 3))]⟩] ++
-        (comp lit body (base + 2) base (base + size body + 3) ++ [⟨.jmp, none, [.num (lit base)]⟩, nopI]))) := by
+        (comp lit entry body (base + 2) base (base + size body + 3) rl ++ [⟨.jmp, none, [.num (lit base)]⟩, nopI]))) := by
       simpa [comp, List.append_assoc] using hc
     have hlab : P[base]? = some nopI := by have := hcode 0 (by simp); simpa using this
     have h1 := hcode.right
@@ -397,7 +690,7 @@ theorem claim_stmt (sem : Sem V) (env : Env V) (lit : Nat → V) (hlit : ∀ n, 
       have := h1 0 (by simp); simpa using this
     have h2 := h1.right
     simp only [List.length_singleton] at h2
-    have hbody : CodeAt P (base + 2) (comp lit body (base + 2) base (base + size body + 3)) := by
+    have hbody : CodeAt P (base + 2) (comp lit entry body (base + 2) base (base + size body + 3) rl) := by
       have := h2.left
       have e : base + 1 + 1 = base + 2 := by omega
       rw [e] at this; exact this
@@ -407,105 +700,128 @@ theorem claim_stmt (sem : Sem V) (env : Env V) (lit : Nat → V) (hlit : ∀ n, 
       have := h3 0 (by simp)
       have e : base + 1 + 1 + size body + 0 = base + 2 + size body := by omega
       rw [e] at this; simpa using this
-    have hend : P[base + 2 + size body + 1]? = some nopI := by
+    have hend : P[base + size body + 3]? = some nopI := by
       have := h3 1 (by simp)
-      have e : base + 1 + 1 + size body + 1 = base + 2 + size body + 1 := by omega
+      have e : base + 1 + 1 + size body + 1 = base + size body + 3 := by omega
       rw [e] at this; simpa using this
-    have hlstep : ∀ σ1 : SSt V, step sem env P (mk σ1 mem base) = mk σ1 mem (base + 1) := fun σ1 => step_nop sem env P σ1 mem _ hlab
-    have hbstep : ∀ σ1 : SSt V, step sem env P (mk σ1 mem (base + 1)) =
-        if sem.cond c (evalArgs σ1.regs args) then mk σ1 mem (base + 1 + 1) else mk σ1 mem (base + size body + 3) := by
-      intro σ1
-      have := step_br sem env P σ1 mem (base + 1) lit neg args (base + size body + 3) (hlit _) hbr
-      rw [hneg _ (by simp [evalArgs])] at this
-      rw [this]
-      cases sem.cond c (evalArgs σ1.regs args) <;> simp
-    have hjstep : ∀ σ1 : SSt V, step sem env P (mk σ1 mem (base + 2 + size body)) = mk σ1 mem base :=
-      fun σ1 => step_jmp sem env P σ1 mem _ lit base (hlit _) hjmp
-    have hestep : ∀ σ1 : SSt V, step sem env P (mk σ1 mem (base + size body + 3)) = mk σ1 mem (base + size body + 4) := by
-      intro σ1
-      have e : base + size body + 3 = base + 2 + size body + 1 := by omega
-      rw [e, step_nop sem env P σ1 mem _ hend]
-      exact congrArg (mk σ1 mem) (by omega)
-    have e2 : base + 1 + 1 = base + 2 := by omega
+    have esz : base + size (Stmt.while c neg args body) = base + size body + 3 + 1 := by simp [size]; omega
+    have hrun2 : ∀ k (u : St Reg V), run sem env P (k + 1 + 1) u = run sem env P k (step sem env P (step sem env P u)) := fun k u => rfl
     cases n with
     | zero =>
       refine ⟨fun e σ' h => by simp [exec] at h, fun σ' h => ?_⟩
       simp only [exec, Res.timeout.injEq] at h
-      exact ⟨0, base, by omega, by simp [run, h]⟩
+      subst h
+      exact ⟨0, base, Nat.le_refl 0, hat⟩
     | succ m =>
-      have hw := hprev m rfl (.while c neg args body) ⟨hneg, hnb⟩ base cl bl
-      constructor
-      · intro e σ' h
-        simp only [exec] at h
-        by_cases hb : sem.cond c (evalArgs σ.regs args) = true
-        · rw [if_pos hb] at h
-          cases hbd : exec sem env (m + 1) body σ with
+      have hw := hprev m rfl (.while c neg args body) ⟨hneg, hargs, hgb⟩ base cl bl rl
+      obtain ⟨hl1, rl1⟩ := step_nop sem env P st σ base hat hlab
+      obtain ⟨hb1, rb1⟩ := step_br sem env P _ σ (base + 1) hl1 lit neg args (base + size body + 3) (hlit _) hargs hbr
+      rw [hneg _ (by simp [evalArgs])] at hb1
+      by_cases hb : sem.cond c (evalArgs σ.regs args) = true
+      · simp only [hb, Bool.not_true, Bool.false_eq_true, if_false] at hb1
+        have e2 : base + 1 + 1 = base + 2 := by omega
+        rw [e2] at hb1
+        have hbd := ih hgb (base + 2) base (base + size body + 3) rl σ _ hbody hb1
+        constructor
+        · intro e σ' h
+          simp only [exec] at h
+          rw [if_pos hb] at h
+          cases hx : exec sem env F (m + 1) body σ with
           | ok e1 σ1 =>
-            rw [hbd] at h
-            obtain ⟨k1, hk1⟩ := (ih hnb (base + 2) base (base + size body + 3) σ hbody).1 e1 σ1 hbd
+            rw [hx] at h
+            obtain ⟨k1, hk1, hr1⟩ := hbd.1 e1 σ1 hx
             cases e1 with
             | norm =>
               simp only [land] at hk1
               simp only at h
-              obtain ⟨k2, hk2⟩ := (hw σ1 hc).1 e σ' h
-              refine ⟨1 + (1 + (k1 + (1 + k2))), ?_⟩
-              rw [run_add, run_add, run_add, run_add, run_one, run_one, run_one, hlstep, hbstep, if_pos hb, e2, hk1, hjstep, hk2]
+              obtain ⟨hj, rj⟩ := step_jmp sem env P _ σ1 _ hk1 lit base (hlit _) hjmp
+              obtain ⟨k2, hk2, hr2⟩ := (hw σ1 _ hc hj).1 e σ' h
+              refine ⟨k1 + 1 + k2 + 1 + 1, ?_, fun hnc => ?_⟩
+              · have : run sem env P (k1 + 1 + k2 + 1 + 1) st = run sem env P (k1 + 1 + k2) (step sem env P (step sem env P st)) := rfl
+                rw [this, run_add, run_step]; exact hk2
+              · have : run sem env P (k1 + 1 + k2 + 1 + 1) st = run sem env P (k1 + 1 + k2) (step sem env P (step sem env P st)) := rfl
+                rw [this, run_add, run_step, hr2 hnc, rj, hr1 hnc, rb1, rl1]
             | cont =>
               simp only [land] at hk1
               simp only at h
-              obtain ⟨k2, hk2⟩ := (hw σ1 hc).1 e σ' h
-              refine ⟨1 + (1 + (k1 + k2)), ?_⟩
-              rw [run_add, run_add, run_add, run_one, run_one, hlstep, hbstep, if_pos hb, e2, hk1, hk2]
+              obtain ⟨k2, hk2, hr2⟩ := (hw σ1 _ hc hk1).1 e σ' h
+              refine ⟨k1 + k2 + 1 + 1, ?_, fun hnc => ?_⟩
+              · have : run sem env P (k1 + k2 + 1 + 1) st = run sem env P (k1 + k2) (step sem env P (step sem env P st)) := rfl
+                rw [this, run_add]; exact hk2
+              · have : run sem env P (k1 + k2 + 1 + 1) st = run sem env P (k1 + k2) (step sem env P (step sem env P st)) := rfl
+                rw [this, run_add, hr2 hnc, hr1 hnc, rb1, rl1]
             | brk =>
               simp only [land] at hk1
               simp only [Res.done, Res.ok.injEq] at h
               obtain ⟨rfl, rfl⟩ := h
-              refine ⟨1 + (1 + (k1 + 1)), ?_⟩
-              rw [run_add, run_add, run_add, run_one, run_one, run_one, hlstep, hbstep, if_pos hb, e2, hk1, hestep]
-              simp only [land]
-              exact congrArg (mk _ mem) (by simp only [size]; omega)
-          | timeout σ1 => rw [hbd] at h; simp at h
-        · have hb' : sem.cond c (evalArgs σ.regs args) = false := by simpa using hb
-          rw [if_neg hb] at h
-          simp only [Res.done, Res.ok.injEq] at h
-          obtain ⟨rfl, rfl⟩ := h
-          refine ⟨1 + (1 + 1), ?_⟩
-          rw [run_add, run_add, run_one, run_one, run_one, hlstep, hbstep, if_neg hb, hestep]
-          simp only [land]
-          exact congrArg (mk _ mem) (by simp only [size]; omega)
-      · intro σ' h
-        simp only [exec] at h
-        by_cases hb : sem.cond c (evalArgs σ.regs args) = true
-        · rw [if_pos hb] at h
-          cases hbd : exec sem env (m + 1) body σ with
+              obtain ⟨he, re⟩ := step_nop sem env P _ σ1 _ hk1 hend
+              refine ⟨k1 + 1 + 1 + 1, ?_, fun hnc => ?_⟩
+              · have : run sem env P (k1 + 1 + 1 + 1) st = run sem env P (k1 + 1) (step sem env P (step sem env P st)) := rfl
+                rw [this, run_step]; simp only [land]; rw [esz]; exact he
+              · have : run sem env P (k1 + 1 + 1 + 1) st = run sem env P (k1 + 1) (step sem env P (step sem env P st)) := rfl
+                rw [this, run_step, re, hr1 hnc, rb1, rl1]
+            | ret =>
+              simp only [land] at hk1
+              simp only [Res.ok.injEq] at h
+              obtain ⟨rfl, rfl⟩ := h
+              refine ⟨k1 + 1 + 1, ?_, fun hnc => ?_⟩
+              · rw [hrun2]; exact hk1
+              · rw [hrun2, hr1 hnc, rb1, rl1]
+          | timeout σ1 => rw [hx] at h; simp at h
+          | stuck => rw [hx] at h; simp at h
+        · intro σ' h
+          simp only [exec] at h
+          rw [if_pos hb] at h
+          cases hx : exec sem env F (m + 1) body σ with
           | ok e1 σ1 =>
-            rw [hbd] at h
-            obtain ⟨k1, hk1⟩ := (ih hnb (base + 2) base (base + size body + 3) σ hbody).1 e1 σ1 hbd
+            rw [hx] at h
+            obtain ⟨k1, hk1, hr1⟩ := hbd.1 e1 σ1 hx
             cases e1 with
             | norm =>
               simp only [land] at hk1
               simp only at h
-              obtain ⟨k2, pc, hle, hk2⟩ := (hw σ1 hc).2 σ' h
-              refine ⟨1 + (1 + (k1 + (1 + k2))), pc, by omega, ?_⟩
-              rw [run_add, run_add, run_add, run_add, run_one, run_one, run_one, hlstep, hbstep, if_pos hb, e2, hk1, hjstep, hk2]
+              obtain ⟨hj, rj⟩ := step_jmp sem env P _ σ1 _ hk1 lit base (hlit _) hjmp
+              obtain ⟨k2, pc, hle, hk2⟩ := (hw σ1 _ hc hj).2 σ' h
+              refine ⟨k1 + 1 + k2 + 1 + 1, pc, by omega, ?_⟩
+              have : run sem env P (k1 + 1 + k2 + 1 + 1) st = run sem env P (k1 + 1 + k2) (step sem env P (step sem env P st)) := rfl
+              rw [this, run_add, run_step]; exact hk2
             | cont =>
               simp only [land] at hk1
               simp only at h
-              obtain ⟨k2, pc, hle, hk2⟩ := (hw σ1 hc).2 σ' h
-              refine ⟨1 + (1 + (k1 + k2)), pc, by omega, ?_⟩
-              rw [run_add, run_add, run_add, run_one, run_one, hlstep, hbstep, if_pos hb, e2, hk1, hk2]
+              obtain ⟨k2, pc, hle, hk2⟩ := (hw σ1 _ hc hk1).2 σ' h
+              refine ⟨k1 + k2 + 1 + 1, pc, by omega, ?_⟩
+              have : run sem env P (k1 + k2 + 1 + 1) st = run sem env P (k1 + k2) (step sem env P (step sem env P st)) := rfl
+              rw [this, run_add]; exact hk2
             | brk => simp [Res.done] at h
+            | ret => simp at h
           | timeout σ1 =>
-            rw [hbd] at h
+            rw [hx] at h
             simp only [Res.timeout.injEq] at h
-            obtain ⟨k1, pc, hle, hk1⟩ := (ih hnb (base + 2) base (base + size body + 3) σ hbody).2 σ1 hbd
-            refine ⟨1 + (1 + k1), pc, by omega, ?_⟩
-            rw [run_add, run_add, run_one, run_one, hlstep, hbstep, if_pos hb, e2, hk1, h]
-        · rw [if_neg hb] at h
+            subst h
+            obtain ⟨k1, pc, hle, hk1⟩ := hbd.2 σ1 hx
+            exact ⟨k1 + 1 + 1, pc, by omega, by rw [hrun2]; exact hk1⟩
+          | stuck => rw [hx] at h; simp at h
+      · have hb' : sem.cond c (evalArgs σ.regs args) = false := by simpa using hb
+        simp only [hb', Bool.not_false, if_true] at hb1
+        obtain ⟨he, re⟩ := step_nop sem env P _ σ _ hb1 hend
+        constructor
+        · intro e σ' h
+          simp only [exec] at h
+          rw [if_neg hb] at h
+          simp only [Res.done, Res.ok.injEq] at h
+          obtain ⟨rfl, rfl⟩ := h
+          refine ⟨1 + 1 + 1, ?_, fun _ => ?_⟩
+          · have : run sem env P (1 + 1 + 1) st = step sem env P (step sem env P (step sem env P st)) := rfl
+            rw [this]; simp only [land]; rw [esz]; exact he
+          · have : run sem env P (1 + 1 + 1) st = step sem env P (step sem env P (step sem env P st)) := rfl
+            rw [this, re, rb1, rl1]
+        · intro σ' h
+          simp only [exec] at h
+          rw [if_neg hb] at h
           simp [Res.done] at h
   | loop body ih =>
-    intro hnb base cl bl σ hc
-    have hcode : CodeAt P base ([nopI] ++ (comp lit body (base + 1) base (base + size body + 2) ++ [⟨.jmp, none, [.num (lit base)]⟩, nopI])) := by
+    intro hgb base cl bl rl σ st hc hat
+    have hcode : CodeAt P base ([nopI] ++ (comp lit entry body (base + 1) base (base + size body + 2) rl ++ [⟨.jmp, none, [.num (lit base)]⟩, nopI])) := by
       simpa [comp, List.append_assoc] using hc
     have hlab : P[base]? = some nopI := by have := hcode 0 (by simp); simpa using this
     have h1 := hcode.right
@@ -515,90 +831,106 @@ theorem claim_stmt (sem : Sem V) (env : Env V) (lit : Nat → V) (hlit : ∀ n, 
     rw [comp_length] at h2
     have hjmp : P[base + 1 + size body]? = some ⟨.jmp, none, [.num (lit base)]⟩ := by
       have := h2 0 (by simp); simpa using this
-    have hend : P[base + 1 + size body + 1]? = some nopI := by
-      have := h2 1 (by simp); simpa using this
-    have hlstep : ∀ σ1 : SSt V, step sem env P (mk σ1 mem base) = mk σ1 mem (base + 1) := fun σ1 => step_nop sem env P σ1 mem _ hlab
-    have hjstep : ∀ σ1 : SSt V, step sem env P (mk σ1 mem (base + 1 + size body)) = mk σ1 mem base :=
-      fun σ1 => step_jmp sem env P σ1 mem _ lit base (hlit _) hjmp
-    have hestep : ∀ σ1 : SSt V, step sem env P (mk σ1 mem (base + size body + 2)) = mk σ1 mem (base + size body + 3) := by
-      intro σ1
-      have e : base + size body + 2 = base + 1 + size body + 1 := by omega
-      rw [e, step_nop sem env P σ1 mem _ hend]
-      exact congrArg (mk σ1 mem) (by omega)
+    have hend : P[base + size body + 2]? = some nopI := by
+      have := h2 1 (by simp)
+      have e : base + 1 + size body + 1 = base + size body + 2 := by omega
+      rw [e] at this; simpa using this
+    have esz : base + size (Stmt.loop body) = base + size body + 2 + 1 := by simp [size]; omega
+    have hrun1 : ∀ k (u : St Reg V), run sem env P (k + 1) u = run sem env P k (step sem env P u) := fun k u => rfl
     cases n with
     | zero =>
       refine ⟨fun e σ' h => by simp [exec] at h, fun σ' h => ?_⟩
       simp only [exec, Res.timeout.injEq] at h
-      exact ⟨0, base, by omega, by simp [run, h]⟩
+      subst h
+      exact ⟨0, base, Nat.le_refl 0, hat⟩
     | succ m =>
-      have hw := hprev m rfl (.loop body) hnb base cl bl
+      have hw := hprev m rfl (.loop body) hgb base cl bl rl
+      obtain ⟨hl1, rl1⟩ := step_nop sem env P st σ base hat hlab
+      have hbd := ih hgb (base + 1) base (base + size body + 2) rl σ _ hbody hl1
       constructor
       · intro e σ' h
         simp only [exec] at h
-        cases hbd : exec sem env (m + 1) body σ with
+        cases hx : exec sem env F (m + 1) body σ with
         | ok e1 σ1 =>
-          rw [hbd] at h
-          obtain ⟨k1, hk1⟩ := (ih hnb (base + 1) base (base + size body + 2) σ hbody).1 e1 σ1 hbd
+          rw [hx] at h
+          obtain ⟨k1, hk1, hr1⟩ := hbd.1 e1 σ1 hx
           cases e1 with
           | norm =>
             simp only [land] at hk1
             simp only at h
-            obtain ⟨k2, hk2⟩ := (hw σ1 hc).1 e σ' h
-            refine ⟨1 + (k1 + (1 + k2)), ?_⟩
-            rw [run_add, run_add, run_add, run_one, run_one, hlstep, hk1, hjstep, hk2]
+            obtain ⟨hj, rj⟩ := step_jmp sem env P _ σ1 _ hk1 lit base (hlit _) hjmp
+            obtain ⟨k2, hk2, hr2⟩ := (hw σ1 _ hc hj).1 e σ' h
+            refine ⟨k1 + 1 + k2 + 1, ?_, fun hnc => ?_⟩
+            · rw [hrun1, run_add, run_step]; exact hk2
+            · rw [hrun1, run_add, run_step, hr2 hnc, rj, hr1 hnc, rl1]
           | cont =>
             simp only [land] at hk1
             simp only at h
-            obtain ⟨k2, hk2⟩ := (hw σ1 hc).1 e σ' h
-            refine ⟨1 + (k1 + k2), ?_⟩
-            rw [run_add, run_add, run_one, hlstep, hk1, hk2]
+            obtain ⟨k2, hk2, hr2⟩ := (hw σ1 _ hc hk1).1 e σ' h
+            refine ⟨k1 + k2 + 1, ?_, fun hnc => ?_⟩
+            · rw [hrun1, run_add]; exact hk2
+            · rw [hrun1, run_add, hr2 hnc, hr1 hnc, rl1]
           | brk =>
             simp only [land] at hk1
             simp only [Res.done, Res.ok.injEq] at h
             obtain ⟨rfl, rfl⟩ := h
-            refine ⟨1 + (k1 + 1), ?_⟩
-            rw [run_add, run_add, run_one, run_one, hlstep, hk1, hestep]
-            simp only [land]
-            exact congrArg (mk _ mem) (by simp only [size]; omega)
-        | timeout σ1 => rw [hbd] at h; simp at h
+            obtain ⟨he, re⟩ := step_nop sem env P _ σ1 _ hk1 hend
+            refine ⟨k1 + 1 + 1, ?_, fun hnc => ?_⟩
+            · rw [hrun1, run_step]; simp only [land]; rw [esz]; exact he
+            · rw [hrun1, run_step, re, hr1 hnc, rl1]
+          | ret =>
+            simp only [land] at hk1
+            simp only [Res.ok.injEq] at h
+            obtain ⟨rfl, rfl⟩ := h
+            refine ⟨k1 + 1, ?_, fun hnc => ?_⟩
+            · rw [hrun1]; exact hk1
+            · rw [hrun1, hr1 hnc, rl1]
+        | timeout σ1 => rw [hx] at h; simp at h
+        | stuck => rw [hx] at h; simp at h
       · intro σ' h
         simp only [exec] at h
-        cases hbd : exec sem env (m + 1) body σ with
+        cases hx : exec sem env F (m + 1) body σ with
         | ok e1 σ1 =>
-          rw [hbd] at h
-          obtain ⟨k1, hk1⟩ := (ih hnb (base + 1) base (base + size body + 2) σ hbody).1 e1 σ1 hbd
+          rw [hx] at h
+          obtain ⟨k1, hk1, hr1⟩ := hbd.1 e1 σ1 hx
           cases e1 with
           | norm =>
             simp only [land] at hk1
             simp only at h
-            obtain ⟨k2, pc, hle, hk2⟩ := (hw σ1 hc).2 σ' h
-            refine ⟨1 + (k1 + (1 + k2)), pc, by omega, ?_⟩
-            rw [run_add, run_add, run_add, run_one, run_one, hlstep, hk1, hjstep, hk2]
+            obtain ⟨hj, rj⟩ := step_jmp sem env P _ σ1 _ hk1 lit base (hlit _) hjmp
+            obtain ⟨k2, pc, hle, hk2⟩ := (hw σ1 _ hc hj).2 σ' h
+            refine ⟨k1 + 1 + k2 + 1, pc, by omega, ?_⟩
+            rw [hrun1, run_add, run_step]; exact hk2
           | cont =>
             simp only [land] at hk1
             simp only at h
-            obtain ⟨k2, pc, hle, hk2⟩ := (hw σ1 hc).2 σ' h
-            refine ⟨1 + (k1 + k2), pc, by omega, ?_⟩
-            rw [run_add, run_add, run_one, hlstep, hk1, hk2]
+            obtain ⟨k2, pc, hle, hk2⟩ := (hw σ1 _ hc hk1).2 σ' h
+            refine ⟨k1 + k2 + 1, pc, by omega, ?_⟩
+            rw [hrun1, run_add]; exact hk2
           | brk => simp [Res.done] at h
+          | ret => simp at h
         | timeout σ1 =>
-          rw [hbd] at h
+          rw [hx] at h
           simp only [Res.timeout.injEq] at h
-          obtain ⟨k1, pc, hle, hk1⟩ := (ih hnb (base + 1) base (base + size body + 2) σ hbody).2 σ1 hbd
-          refine ⟨1 + k1, pc, by omega, ?_⟩
-          rw [run_add, run_one, hlstep, hk1, h]
+          subst h
+          obtain ⟨k1, pc, hle, hk1⟩ := hbd.2 σ1 hx
+          exact ⟨k1 + 1, pc, by omega, by rw [hrun1]; exact hk1⟩
+        | stuck => rw [hx] at h; simp at h
 
 /-- the simulation for every fuel -/
-theorem sim (sem : Sem V) (env : Env V) (lit : Nat → V) (hlit : ∀ n, sem.toAddr (lit n) = some n)
-    (P : List (Instr Reg V)) (mem : Nat → V) : ∀ n s, NegOk sem s → Claim sem env lit P mem n s := by
+theorem sim (hlit : ∀ n, sem.toAddr (lit n) = some n) (hof : ∀ n, sem.toAddr (sem.ofNat n) = some n)
+    (ok : Nat → Prop) (hok : ∀ k, ok k → ProcOk sem lit entry F P k) :
+    ∀ n s, Good sem ok s → Claim sem env lit entry F P n s := by
   intro n
   induction n with
-  | zero => exact claim_stmt sem env lit hlit P mem 0 (by intro m h; omega)
+  | zero => exact claim_stmt sem env lit entry F P hlit hof ok hok 0 (by intro m h; omega)
   | succ n ih =>
-    refine claim_stmt sem env lit hlit P mem (n + 1) ?_
+    refine claim_stmt sem env lit entry F P hlit hof ok hok (n + 1) ?_
     intro m h
     have hm : m = n := by omega
     subst hm
     exact ih
+
+end sim
 
 end PV.Core
